@@ -83,6 +83,10 @@ var Hostile = []string{
 	"list<", "map<string>", "<", ">", "\"", "'", "\"\"\"", "'''", "r'", "b\"", "//", "// c\n", "\\", "\x00", "\xff", "é", " ", "0x", "1.", "1.1", ".", "-", "/", "--",
 	"x", "a-", "a.b", "a/b", "_", "in", "true", "null", "but", "not", "[user]", "[user:*]", "[user with c]", "[]", "[ ]", "user:*#r", "(((", ")))",
 	"\n\n\n", "    ", "\t\t", "&&", "||", "==", "!", "?", "%", "+",
+	// characters no lexer rule matches, alone and where an empty construct surrounds them
+	"@", "$", ";", "`", "~", "^", "{@}", "{ $}", "{\n;}", "{\n  é}", "(@)", "[$]", "condition c(x: int) {@}\n", "condition c(x: int) {\n  $\n}\n",
+	// white space that is white space for Go's strings/unicode packages but not for the lexer, as lines of their own
+	"\v", "\u0085", "\u00a0", "\u2028", "\u3000", "\n\v\n", "\n\u00a0\n", "\n\u2028\n", "\n\u3000\n", "\n\u0085\n", "\n\u00a0# c\n", "\n\v# c\n", "\n \u3000 \n",
 }
 
 var tokenSplit = regexp.MustCompile(`[A-Za-z_][A-Za-z0-9_\-./]*|\s+|.`)
